@@ -54,6 +54,10 @@ def run(ctx):
   _r2_4(ctx, F)
   _r2_5(ctx, F)
   _r2_6(ctx, F)
+  ctx.rule('R2.7', 'index_utxo_entries: sats the coinbase does not claim are located at (null outpoint, running lost_sats), the running sum grows by end - start and starts from the stored statistic, '
+           'and the new lost ranges are appended after the existing null-outpoint entry (merged(existing, new)) — the same obligations as C01 R1.5')
+  from .C01 import lost_sats_for
+  lost_sats_for(ctx, 'R2.7')
 
 
 def _its(ctx, F):
